@@ -73,10 +73,12 @@ def make_proxy(worker, sim, recipe, rank, iterations, collected):
                 elif kind == "waitsome":
                     ids = msg[1]
                     if len(msg) > 2 and msg[2]:
-                        one = simmpi.Request.Waitany([reqs[i] for i in ids])
+                        one = simmpi.Request.Waitany(
+                            [reqs.get(i, simmpi.REQUEST_NULL) for i in ids])
                         res = None if one < 0 else [one]
                     else:
-                        res = simmpi.Request.Waitsome([reqs[i] for i in ids])
+                        res = simmpi.Request.Waitsome(
+                            [reqs.get(i, simmpi.REQUEST_NULL) for i in ids])
                     data = {}
                     if res:
                         for i in res:
